@@ -32,7 +32,7 @@
    coins as declared; sums below 2^128).  The exact issuance of each real seal is also evaluated by the model on
    the real before/after states of the stf stream (Cases/Reflect.v [supply], [seal_issuance]). *)
 From MelVerif Require Import STF.Model STF.Proofs.MapLemmas STF.Proofs.Faucet STF.Proofs.Coins STF.Proofs.Supply STF.Proofs.Pool
-  STF.Proofs.SealCoins STF.Proofs.HashFacts STF.Proofs.BatchSupply STF.Proofs.SealSupply STF.Proofs.SealLift STF.Proofs.SealPegged STF.Proofs.SealCounts STF.Proofs.History STF.Proofs.PoolHistory STF.Proofs.SupplyHistory STF.Proofs.Witness2 STF.Proofs.Witness3 STF.Proofs.Witness4 STF.Proofs.Witness7 STF.Proofs.Witness.
+  STF.Proofs.SealCoins STF.Proofs.HashFacts STF.Proofs.BatchSupply STF.Proofs.SealSupply STF.Proofs.SealLift STF.Proofs.SealPegged STF.Proofs.SealCounts STF.Proofs.History STF.Proofs.PoolHistory STF.Proofs.SupplyHistory STF.Proofs.Witness2 STF.Proofs.Witness3 STF.Proofs.Witness4 STF.Proofs.Witness7 STF.Proofs.Witness STF.Proofs.Declared STF.Proofs.BoundsHistory STF.Proofs.Witness5 STF.Proofs.Witness8.
 Open Scope N_scope.
 
 (* every accepted non-faucet transaction is balanced denomination by denomination: outputs plus fee equal the
@@ -190,8 +190,8 @@ Theorem C01_settlement : forall K, NoDup (map poolkey_code K) -> forall SO s1 s2
   legacy_net s1 && (s_height s1 <? 978392) = false ->
   (forall t k, In t (sorted_txs s1) -> tx_pool t = Some k -> In k K /\ LDk SO k <> fst k /\ LDk SO k <> snd k) ->
   NoDup (key_pairs (sorted_txs s1)) ->
-  (forall t c, In t (sorted_txs s1) -> s_coins s1 !! key0 t = Some c -> as_declared c (out0 t)) ->
-  (forall t c, In t (sorted_txs s1) -> s_coins s1 !! key1 t = Some c -> as_declared c (out1 t)) ->
+  (forall t c, In t (sorted_txs s1) -> s_coins s1 !! key0 t = Some c -> as_declared t c (out0 t)) ->
+  (forall t c, In t (sorted_txs s1) -> s_coins s1 !! key1 t = Some c -> as_declared t c (out1 t)) ->
   nsum (map (fun t => cd_value (out0 t)) (sorted_txs s1)) < U128 ->
   nsum (map (fun t => cd_value (out1 t)) (sorted_txs s1)) < U128 ->
   (forall k p'' m, In k K ->
@@ -225,8 +225,8 @@ Theorem C01_seal_custom_denominations : forall K, NoDup (map poolkey_code K) -> 
   legacy_net s && (s_height s <? 978392) = false ->
   (forall t k, In t (sorted_txs s) -> tx_pool t = Some k -> In k K /\ LDk SO k <> fst k /\ LDk SO k <> snd k) ->
   NoDup (key_pairs (sorted_txs s)) ->
-  (forall t c, In t (sorted_txs s) -> s_coins s !! key0 t = Some c -> as_declared c (out0 t)) ->
-  (forall t c, In t (sorted_txs s) -> s_coins s !! key1 t = Some c -> as_declared c (out1 t)) ->
+  (forall t c, In t (sorted_txs s) -> s_coins s !! key0 t = Some c -> as_declared t c (out0 t)) ->
+  (forall t c, In t (sorted_txs s) -> s_coins s !! key1 t = Some c -> as_declared t c (out1 t)) ->
   nsum (map (fun t => cd_value (out0 t)) (sorted_txs s)) < U128 ->
   nsum (map (fun t => cd_value (out1 t)) (sorted_txs s)) < U128 ->
   (forall s2 s3, process_swaps (create_builtins s) = Ok s2 -> process_deposits SO s2 = Ok s3 ->
@@ -250,8 +250,8 @@ Theorem C01_seal_unpegged : forall K, NoDup (map poolkey_code K) -> forall SO, I
   legacy_net s && (s_height s <? 978392) = false ->
   (forall t k, In t (sorted_txs s) -> tx_pool t = Some k -> In k K /\ LDk SO k <> fst k /\ LDk SO k <> snd k) ->
   NoDup (key_pairs (sorted_txs s)) ->
-  (forall t c, In t (sorted_txs s) -> s_coins s !! key0 t = Some c -> as_declared c (out0 t)) ->
-  (forall t c, In t (sorted_txs s) -> s_coins s !! key1 t = Some c -> as_declared c (out1 t)) ->
+  (forall t c, In t (sorted_txs s) -> s_coins s !! key0 t = Some c -> as_declared t c (out0 t)) ->
+  (forall t c, In t (sorted_txs s) -> s_coins s !! key1 t = Some c -> as_declared t c (out1 t)) ->
   nsum (map (fun t => cd_value (out0 t)) (sorted_txs s)) < U128 ->
   nsum (map (fun t => cd_value (out1 t)) (sorted_txs s)) < U128 ->
   (forall s2 s3, process_swaps (create_builtins s) = Ok s2 -> process_deposits SO s2 = Ok s3 ->
@@ -309,8 +309,8 @@ Theorem C01_seal_mel_sym : forall K, NoDup (map poolkey_code K) -> forall SO, In
   legacy_net s && (s_height s <? 978392) = false ->
   (forall t k, In t (sorted_txs s) -> tx_pool t = Some k -> In k K /\ LDk SO k <> fst k /\ LDk SO k <> snd k) ->
   NoDup (key_pairs (sorted_txs s)) ->
-  (forall t c, In t (sorted_txs s) -> s_coins s !! key0 t = Some c -> as_declared c (out0 t)) ->
-  (forall t c, In t (sorted_txs s) -> s_coins s !! key1 t = Some c -> as_declared c (out1 t)) ->
+  (forall t c, In t (sorted_txs s) -> s_coins s !! key0 t = Some c -> as_declared t c (out0 t)) ->
+  (forall t c, In t (sorted_txs s) -> s_coins s !! key1 t = Some c -> as_declared t c (out1 t)) ->
   nsum (map (fun t => cd_value (out0 t)) (sorted_txs s)) < U128 ->
   nsum (map (fun t => cd_value (out1 t)) (sorted_txs s)) < U128 ->
   (forall s2 s3, process_swaps (create_builtins s) = Ok s2 -> process_deposits SO s2 = Ok s3 ->
@@ -384,3 +384,92 @@ Theorem C01_every_history_mel_sym : forall K, NoDup (map poolkey_code K) -> fora
   held K d (fold_left (hstep SO) ops s) <= held K d s + hist_issuance K SO d s ops.
 Proof. exact supply_history_pegged. Qed.
 Print Assumptions C01_every_history_mel_sym.
+
+(* ---- whole histories with nothing assumed about the coins of the states that are sealed.
+   [as_declared t c o]: coin c carries the value of output o and its denomination (a new-token output under its
+   final name).  [Declared s]: the coins at the first two output ids of the transactions of the current block
+   are as those transactions declared them.  [Good2] = [Good] (Properties/C20.v) and [Declared]: an invariant
+   of every history, true of the genesis state.  [seal_bounds]: the no-overflow side conditions of a seal. *)
+Theorem C01_as_declared_def : forall t c o,
+  as_declared t c o <-> cd_denom (c_data c) = fix_denom t (cd_denom o) /\ cd_value (c_data c) = cd_value o.
+Proof. exact as_declared_def. Qed.
+Print Assumptions C01_as_declared_def.
+Theorem C01_declared_def : forall s,
+  Declared s <-> forall t, In t (sorted_txs s) ->
+    (forall c, s_coins s !! key0 t = Some c ->
+       cd_denom (c_data c) = fix_denom t (cd_denom (out0 t)) /\ cd_value (c_data c) = cd_value (out0 t)) /\
+    (forall c, s_coins s !! key1 t = Some c ->
+       cd_denom (c_data c) = fix_denom t (cd_denom (out1 t)) /\ cd_value (c_data c) = cd_value (out1 t)).
+Proof. exact declared_def. Qed.
+Print Assumptions C01_declared_def.
+Theorem C01_invariant_def : forall s, Good2 s <-> Good s /\ Declared s.
+Proof. exact good2_def. Qed.
+Print Assumptions C01_invariant_def.
+Theorem C01_genesis_invariant : forall net c fee_pool mult stakes, Good2 (genesis net c fee_pool mult stakes).
+Proof. exact genesis_good2. Qed.
+Print Assumptions C01_genesis_invariant.
+Theorem C01_invariant_every_history : forall SO ops s,
+  Good2 s -> hist_ok SO s ops -> Good2 (fold_left (hstep SO) ops s).
+Proof. exact history_good2. Qed.
+Print Assumptions C01_invariant_every_history.
+(* so in every reachable state no two transactions of the block share an output id and the coins at those ids are
+   as declared: the premises the one-seal theorems above take about the state that is sealed *)
+Theorem C01_reachable_states_are_as_declared : forall SO ops s,
+  Good2 s -> hist_ok SO s ops ->
+  let s1 := fold_left (hstep SO) ops s in
+  NoDup (key_pairs (sorted_txs s1)) /\
+  (forall t c, In t (sorted_txs s1) -> s_coins s1 !! key0 t = Some c -> as_declared t c (out0 t)) /\
+  (forall t c, In t (sorted_txs s1) -> s_coins s1 !! key1 t = Some c -> as_declared t c (out1 t)).
+Proof. exact history_declared. Qed.
+Print Assumptions C01_reachable_states_are_as_declared.
+
+Theorem C01_seal_bounds_def : forall K SO s,
+  seal_bounds K SO s <->
+  legacy_net s && (s_height s <? 978392) = false /\
+  (forall t k1, In t (sorted_txs s) -> tx_pool t = Some k1 -> In k1 K /\ LDk SO k1 <> fst k1 /\ LDk SO k1 <> snd k1) /\
+  nsum (map (fun t => cd_value (out0 t)) (sorted_txs s)) < U128 /\
+  nsum (map (fun t => cd_value (out1 t)) (sorted_txs s)) < U128 /\
+  (forall s2 s3, process_swaps (create_builtins s) = Ok s2 -> process_deposits SO s2 = Ok s3 ->
+     (forall k1 p'' m, In k1 K ->
+        pool_deposit (pool_at s2 k1)
+          (nsum (map (fun t => cd_value (out0 t)) (txs_for_pool (List.filter (is_deposit_request s2) (sorted_txs s2)) k1)))
+          (nsum (map (fun t => cd_value (out1 t)) (txs_for_pool (List.filter (is_deposit_request s2) (sorted_txs s2)) k1))) = Ok (p'', m) ->
+        p_liqs (pool_at s2 k1) + m < U128) /\
+     (forall k1 p1, In k1 K -> get_pool s3 k1 = Some p1 -> p_lefts p1 < U128 /\ p_rights p1 < U128)).
+Proof. exact seal_bounds_def. Qed.
+Print Assumptions C01_seal_bounds_def.
+Theorem C01_bounds_step_def : forall K SO s o,
+  bounds_step_ok K SO s o <->
+  match o with
+  | HBatch lh txs => HashOK SO s txs /\
+      forall t t', In t txs -> In t' (sorted_txs s) -> so_faucet_marker SO (t_hash t) <> t_hash t'
+  | HBlock a hdr => (a <> None -> reward_fresh SO s) /\ seal_bounds K SO s
+  end.
+Proof. exact bounds_step_ok_def. Qed.
+Print Assumptions C01_bounds_step_def.
+
+(* C01 for every denomination and every history that starts in a state of the invariant: only the hash-oracle
+   assumptions and the no-overflow bounds are asked of the steps *)
+Theorem C01_every_history_from_invariant : forall K, NoDup (map poolkey_code K) -> forall SO, In MS K /\ In ME K /\ In ES K ->
+  forall d, d <> NewCustom -> forall ops s,
+  Good2 s -> hist_all SO (bounds_step_ok K SO) s ops ->
+  grows K SO d (hist_issuance K SO d s ops) s (fold_left (hstep SO) ops s).
+Proof. exact supply_history_inv. Qed.
+Print Assumptions C01_every_history_from_invariant.
+Theorem C01_every_history_mel_sym_from_invariant : forall K, NoDup (map poolkey_code K) -> forall SO, In MS K /\ In ME K /\ In ES K ->
+  forall d ops s, pegged d ->
+  Good2 s -> hist_all SO (bounds_step_ok K SO) s ops ->
+  held K d (fold_left (hstep SO) ops s) <= held K d s + hist_issuance K SO d s ops.
+Proof. exact supply_history_pegged_inv. Qed.
+Print Assumptions C01_every_history_mel_sym_from_invariant.
+
+(* non-vacuity: the history of STF/Proofs/Witness5.v (a batch of two faucets and a transfer, then a sealed block
+   that bootstraps the built-in pools and pays the proposer) starts in a state of the invariant and meets the step
+   condition at both steps *)
+Theorem C01_history_witness :
+  Good2 w_state /\ hist_all w_oracle (bounds_step_ok w_K3 w_oracle) w_state w_hist /\
+  hist_issuance w_K3 w_oracle Mel w_state w_hist = 1701411834604692317316873039158848057 /\
+  held w_K3 Mel w_state = 1000 /\
+  held w_K3 Mel (fold_left (hstep w_oracle) w_hist w_state) = 2000007989.
+Proof. exact w_history_witness. Qed.
+Print Assumptions C01_history_witness.
